@@ -10,10 +10,20 @@ TRUST = ('Trusted: TLC; the simulated transport, block exchange and cache of har
          '(Append/Join treated as atomic steps); the verif hooks of /repo. ')
 
 CLAIMS = {
+    'C18': ('tla-lifecycle', 'spec/Lifecycle.tla (moments x close kinds x later operations) model-checked; moments reached on a real instance with on-disk LevelDB directories by gates; Close / Close twice / instance Close (once, twice) / Drop; goroutines started since the store (instance) was opened identified by id must be gone; later operations under a watchdog; directory reopened; sibling database checked.',
+            'Goroutine attribution and hang detection are runtime observations; 19-28 moments quick, up to 200 thorough.', '6 C18'),
     'C19': ('tla-status', 'spec/Status.tla (the status arithmetic driven by its real trigger flows) model-checked: Monotone, RestOK; flows realised on a real store with gated replicator tasks; every individual SetMax/SetProgress recorded by a hook under its lock and checked; values compared with the specification after every settled step; reload from disk.',
             'Bounds: <=4-6 local writes interleaved with a remote chain of 4-6 entries.', '6 C19'),
+    'C20': ('tla-transport', 'spec/Transport.tla (membership diff, message delivery, framing) model-checked; snapshot sequences (lists with duplicates) and interleaved publishes fed to the real pubsubcoreapi adapter through a scripted PubSubAPI with gated polls; pairwise channel over the same API (name symmetry for random peer ids, attribution, own messages); frames 0, 1, limit-1, limit, limit+1 and malformed frames over real libp2p streams (mocknet).',
+            'pubsubraw (gossipsub timing) is not driven; byte-exactness is checked on the concrete payloads.', '6 C20'),
     'C01': ('tla-core', 'spec/Core.tla invariant Convergence model-checked exhaustively on a small configuration; TLC-simulated behaviours (arbitrary stale/duplicate head sets, restarts, final all-to-all sync) replayed on 3 real replicas of each store type with pairwise comparison of replicas holding equal entry sets; recorded implementation traces validated against spec/CoreTrace.tla.',
             'Bounds: 3 replicas, 2 keys x 2 values, <=3 entries exhaustive, <=8 entries simulated.', '6 C01'),
+    'C02': ('tla-system', 'spec/System.tla (writes, cuts, heals, dropped/duplicated/reordered announcements and exchanges, restarts, final phase) model-checked: Converged at rest (safety) and eventual delivery under fairness (liveness); simulated behaviours executed on 2-4 real replicas with every message and notification under driver control, conformance of logs and in-flight message set at every step, then the final phase run to rest in seeded random order and every replica compared with the acknowledged writes.',
+            'Bounds: 2 replicas exhaustive (2-3 writes, 2 faults), 2-4 replicas simulated (3 writes, 3 faults). Final phase as in the property: every ordered pair observes the other joining once more.', '6 C02'),
+    'C03': ('tla-auth', 'spec/Auth.tla: admission predicate of the (repaired) access controllers model-checked against Authorised over every constructible entry x route x write list; the pinned predicate is refuted (vacuity guard); every (write list x route x forging class) case realised with real entries built with a second keystore and delivered to a real replica between honest traffic.',
+            'Classes: honest, nonwriter, copied-id, copied-identity-block, foreign-key-sig, foreign-type; routes: local, announce, exchange, manual sync, ancestor of a colluding head; lists: explicit, wildcard, empty, creator.', '6 C03'),
+    'C04': ('tla-auth', 'spec/Auth.tla (Genuine: untampered, correctly addressed, this database); every single-field mutation of the wire form of a valid entry (15 fields) delivered as head with the original hash, as head re-hashed, and as ancestor of a colluding head; mutants classified with the library\'s own encoder and verifier.',
+            '15 fields x 3 positions x 1-3 store types; the genuine entry must still be accepted afterwards.', '6 C04'),
     'C05': ('tla-writepath', 'spec/WritePath.tla (writers, replication batches, Crash enabled in every state, Recover) model-checked: Durable, NoPhantom; every forced behaviour\'s recorded effect log is cut at every prefix, a fresh instance is started on exactly that durable state and loaded, and the recovered log is compared with the acknowledgements issued before the cut; clean close/reopen with identity and post-restart write.',
             'Bounds: <=3-4 writers, remote chain of 3, all prefixes of the effect log (10-25 effects per behaviour). Effects are durable once their call returns (assumption of the property).', '6 C05'),
     'C06': ('tla-core', 'spec/Core.tla invariants ViewMatches (index as the code computes it = LWW replay) and CausalOrder model-checked exhaustively; behaviours replayed on real key-value replicas with Get/All compared with the specification state after every step; implementation traces validated against CoreTrace.tla (ViewConforms).',
@@ -22,10 +32,20 @@ CLAIMS = {
             'Bounds as C01.', '6 C07'),
     'C08': ('tla-core', 'spec/Core.tla action properties AppendOnly and StableOrder plus invariant OwnOrder model-checked; real event-log listings compared with the specification order after every merge step and checked for removals/reorderings.',
             'Bounds as C01.', '6 C08'),
+    'C09': ('tla-isolation', 'spec/Isolation.tla (every action touches one database) model-checked; interleavings of writes, remote writes, replications and reloads over 2-4 databases of one real instance (default shared bus); observables of every other database compared before/after each step; every published message and store event checked for foreign heads/entries.',
+            'Bounds: 2-4 databases (kv, log, doc; explicit and wildcard lists), <=9 operations per behaviour.', '6 C09'),
     'C10': ('tla-replicator', 'spec/Replicator.tla with refused entries (a non-writer\'s head; an ancestor smuggled in by a valid-looking head) model-checked: NoWedge at rest; TLC behaviours forced on a real store against real hostile entries built with a second keystore, followed by honest re-announcement.',
             'Bounds: 5 hashes, 3 requests mixing valid and refused heads at different positions, concurrency 1-2.', '6 C10'),
     'C11': ('tla-replicator', 'spec/Replicator.tla (requests, workers gated before the semaphore / before and after the fetch, Cancel at every step) model-checked for NoWedge/NoHang and bookkeeping invariants; TLC behaviours including the counterexample of the pinned variant forced on a real replicator; then run to rest and the final request issued again.',
             'Bounds: chain with refs plus a fork (4 hashes), 3 requests, <=2 cancels, concurrency 1-2.', '6 C11'),
+    'C12': ('tla-wire', 'spec/Wire.tla (outcome of every message class: peer alive, nothing changes, next valid message handled) model-checked; sequences (malformed* valid)* over 28 classes x {topic, direct channel} realised with seeded concrete byte strings on a real instance with two databases; raw frames over real libp2p streams; a crash of the harness process is attributed to the marked case.',
+            'TLA+ contributes the state machine and the oracle; breadth over byte strings is the concretiser\'s (structural JSON mutations, truncations, byte-level mutations, varint boundaries).', '6 C12'),
+    'C13': ('tla-core', 'spec/CoreSnap.tla (save/load outcome on every log of <=3 entries incl. oversize payload class) model-checked; for every replica of every replayed Core behaviour, and once with a replication in progress, a snapshot is saved and loaded into a fresh store object on a copy of the durable state; outcome must be error or identical log/heads/view.',
+            'Payloads 0..34 KB representable, 37 KB..300 KB beyond the 16-bit record length. Simulated UnixFS (single block) - chunk boundaries of real UnixFS are not exercised.', '6 C13'),
+    'C14': ('tla-registry', 'spec/Registry.tla (content addressing as the identity function on inputs; local marker state machine) model-checked; sequences of Create/Open/Close/Drop on real instances with names from 8 classes; equality structure of addresses, type and write list of every opened store, parse/print round trip; names escaping into or looking like addresses.',
+            'Bounds: 2 instances, 2 names, 2 types, 3 write lists, <=7 operations; 26+ concrete names x 3 types x 2 lists.', '6 C14'),
+    'C15': ('tla-core', 'spec/CoreLimit.tla: Load(n) as coded (per cached head: fetch <= n, join, trim) checked against LimitOK on every log of <=4-5 entries and every n in -2..len+2; on real replicas every n from -2 to length+2, per call and through MaxHistory, on a copy of the durable state.',
+            'Bounds as C01; property-level oracle: count, order, newest, single-writer exactness.', '6 C15'),
     'C16': ('tla-emitter', 'spec/Emitter.tla (legacy channel API: two goroutines, overflow queue, channel of capacity 16) model-checked for Ordered/Lossless and liveness; TLC behaviours, including the counterexample of the unrepaired variant, forced on the real handleSubscriber goroutines with gates; store events observed at emission time through two unbuffered bus subscriptions (state must already reflect the announced entries) and by a slow subscriber (same sequence, once each).',
             'Bounds: 20 events, capacity 16; <=3 writers and a 3-entry remote chain for store events.', '6 C16'),
     'C17': ('tla-writepath', 'spec/WritePath.tla model-checked for 3 writers with crash at every state; interleavings of 2..8 concurrent AddOperation calls at append | persist | index | emit | return forced on a real store with gates (including TLC\'s counterexample of the unserialised variant), then close/reopen/load.',
